@@ -106,7 +106,9 @@ class CT:
 SIZEOF = {'Py_buffer': 80, 'PyObject': 16, 'matrix': 80, 'double': 8, 'float': 4, 'int': 4, 'long': 8, 'char': 1,
           'short': 2, 'unsigned int': 4, 'unsigned long': 8, 'void': 1,
           'number': 16, 'double _Complex': 16, 'complex_t': 16,
-          '_Complex double': 16, 'unsigned char': 1}
+          '_Complex double': 16, 'unsigned char': 1,
+          # sparse.c: (key, value) pairs used for sorting index lists
+          'int_list': 16, 'double_list': 16, 'complex_list': 24}
 
 
 def sizeof_type(s):
